@@ -305,7 +305,7 @@ var opsByMode = map[string][]string{
 		"AddGaps", "Recombine", "Rarefy"},
 	"C19": {"Clone", "CloneSeqBag", "SubAlign", "SelectSites", "Transpose", "BuildBootstrap", "Consensus", "RandSubAlign", "Unalign", "Sample",
 		"Query", "Query", "Query", "SetSequenceChar", "SetSequenceChar", "ReplaceChar", "ReverseComplement", "Mask", "ToLower", "MaxCharStats",
-		"CharStats", "Entropy", "Pssm", "CountDifferences", "Split", "Append", "DiffWithFirst", "Replace", "TrimSequences"},
+		"CharStats", "Entropy", "Pssm", "CountDifferences", "Split", "Append", "DiffWithFirst", "Replace", "TrimSequences", "LongestORFObj"},
 	"C05": {"Translate", "Translate", "TranslateByReference", "TranslateByReference", "TranslateByReference", "CodonAlign", "CodonAlign", "Clone", "CloneSeqBag", "Unalign"},
 }
 
@@ -460,6 +460,8 @@ func (g *heapGen) args(h *heapRun, op string, recv int, o *obj) *Step {
 			return nil
 		}
 		a["c"] = f64(int(g.pick([]byte("AaCQN-X*TG"))))
+	case "LongestORFObj":
+		a["rev"] = g.rng.Intn(2) == 0
 	case "CountDifferences":
 		if !needAl() || n == 0 {
 			return nil
@@ -876,7 +878,7 @@ func (g *heapGen) args(h *heapRun, op string, recv int, o *obj) *Step {
 		if !needAl() || n == 0 || L < 1 {
 			return nil
 		}
-		qs := []string{"fasta", "phylip", "nexus", "clustal", "stockholm", "paml", "dist", "sw", "swatg", "swatg", "orf", "string", "protdist", "phaseref", "phasentref"}
+		qs := []string{"fasta", "phylip", "nexus", "clustal", "stockholm", "paml", "dist", "sw", "swatg", "swatg", "orf", "string", "protdist", "protdist2", "phaseref", "phasentref"}
 		a["q"] = qs[g.rng.Intn(len(qs))]
 		a["other"] = f64(1 + g.rng.Intn(len(h.objs)))
 	default:
